@@ -23,6 +23,9 @@ OS-level cases:  -m mask  nops op...  nans ans...  [n1]  decision...     (negati
   ignored by the environment, mask bit 4 (16) = main() is run with --time-limit (it calls setAlarm itself); an expiring alarm is
   raise(SIGALRM) at a scheduling point; "40"/"41" records: d1 d2 d3 d4 r.  Answer codes in OS-level cases: 0 stop, 2 = the callback
   first calls setAlarm(n > 0) and continues, 3 = calls setAlarm and stops, anything else continue.
+  op 10 (OS-level only, ends the flow) = run() throws after the scheduling point "7 ..": main() catches and calls shutdown(true) =
+  fetch_and_inc(blocked_); killAlarm(); onUnhandledException() [an override that returns: scheduling-point code 16 = the error report is
+  running, arrivals can be scheduled there; its step = it returns]; shutdown() [prints the final record "0 .."].
 
 The oracle re-does the ghost accounting of the property on the implementation's trace alone (python, independent of
 the Coq model): every arrival is a token; where it is (own activation / slot / deferred activation / fate) is
@@ -46,14 +49,17 @@ RULE = ('cases = (main flow over block/unblock(false)/unblock(true)/shutdown wit
         'object and copy-and-drop the running one, and Application::getInstance() is printed at every scheduling point and after the '
         'destruction of the application object; SIGALRM (not a getSignals() number) through setAlarm(n>0) / setAlarm(0) operations of the '
         'flow, main() with --time-limit, callbacks that call setAlarm first, SIGALRM ignored by the environment or not, the alarm expiring = '
-        'raise(SIGALRM) at a scheduling point). quick = enumeration (depth-first over a python step simulator) '
+        'raise(SIGALRM) at a scheduling point; the run ending with an exception: flow op "run() throws" - main() catches and calls shutdown(true), whose '
+        'onUnhandledException() is overridden by a version that returns and yields to the scheduler (code 16): arrivals are scheduled before the increment, '
+        'INSIDE the error report and after it). quick = enumeration (depth-first over a python step simulator) '
         'of all DIRECT schedules with <= 3 operations and <= 3 arrivals, and <= 4 operations and <= 2 arrivals, of signal numbers {1,2} with '
         'both callback answers; all OS-LEVEL schedules (first main()) with <= 3 operations and <= 3 arrivals and <= 4 / <= 2 of {1,2}, <= 2/2 inside a second '
         'main() and with number 1 environment-ignored, and two-run cases (every <= 2 ops / <= 2 arrivals first run x every single arrival '
         'in the second), all OS-LEVEL flows with <= 3 operations over {block, unblock(true), construct-other, destroy-other, copy-and-drop} '
         'containing an object operation with <= 2 arrivals (<= 2/2 inside a second main()), all OS-LEVEL flows with <= 3 operations over '
         '{block, unblock(true), setAlarm} with <= 2 arrivals of {SIGALRM, 1} and callbacks that continue or re-arm, with SIGALRM '
-        'environment-ignored or not (<= 2 ops with --time-limit, <= 2 ops inside a second main()); plus fixed regression shapes, a targeted OS-level stream (arrival while the application holds a block or a '
+        'environment-ignored or not (<= 2 ops with --time-limit, <= 2 ops inside a second main()), all OS-LEVEL flows of <= 2 operations over {block, unblock(true)} followed by '
+        'the throwing op with <= 3 arrivals (<= 3 operations / <= 2 arrivals; <= 1/2 inside a second main(); <= 1/2 of {SIGALRM, 1} with --time-limit, SIGALRM environment-ignored or not); plus fixed regression shapes, a targeted OS-level stream (arrival while the application holds a block or a '
         'callback runs, release, later arrival of the same and of another number, stop answers, second main(); half of it with other-object '
         'construct / destroy / copy operations before and between the arrivals, a third of it about the alarm: SIGALRM environment-ignored x '
         'setAlarm in the flow / time limit x first / second run x raise(SIGALRM) later, re-arming answers) and random long schedules '
@@ -92,6 +98,8 @@ ASSUMPTIONS = ['main flow well nested (never more unblockSignals than blockSigna
                'object would take over the singleton instance_s by design: "running instance (only valid during run())"); after the '
                'the callback answer is opaque except for one effect: it may call setAlarm(n > 0) as its first action (answer codes 2 / 3); '
                'killAlarm / setAlarm(0) only cancel the timer (no effect on dispositions or the application object); after the '
+               'shutdown(true): the onUnhandledException() override returns and does not itself call block/unblockSignals (the default one exits the process: '
+               'nothing to observe); the throwing operation ends the flow; killAlarm inside shutdown(bool) has no scheduling point of its own; after the '
                'application object is destroyed its handlers are still installed and an arrival would call through a null pointer '
                '(ex_os_arrival_after_destruction) - outside the property (no running application object), the harness resets the dispositions first']
 
@@ -159,7 +167,7 @@ def tl_of(mask):
 
 
 OPN = {1: 'Block', 2: 'Unblock(false)', 3: 'Unblock(true)', 4: 'Shutdown', 5: 'NewOtherApp', 6: 'DeleteOtherApp', 7: 'CopyAndDropSelf',
-       8: 'setAlarm(n>0)', 9: 'setAlarm(0)'}
+       8: 'setAlarm(n>0)', 9: 'setAlarm(0)', 10: 'run()-throws:shutdown(true)+error-report-that-returns'}
 ANSN = {0: 'stop', 2: 'setAlarm-then-continue', 3: 'setAlarm-then-stop'}
 OSM = {1: 'first main()', 2: 'second main() after an empty run', 3: 'first main() then second main() with the same flow'}
 
@@ -194,7 +202,9 @@ def sim_code(st):
         return 0
     if ops[0] in (5, 6, 7, 8, 9):
         return 6 + ops[0]       # 11 / 12 / 13: construct / destroy another application object, copy-and-drop; 14 / 15: setAlarm(n) / setAlarm(0) (OS-level flows only)
-    return 7 if ops[0] in (1, 4) else 8
+    if ops[0] == 16:
+        return 16               # the error report of shutdown(true) is running (OS-level flows only)
+    return 7 if ops[0] in (1, 4, 10) else 8
 
 
 def sim_step(st, ans):
@@ -223,6 +233,10 @@ def sim_step(st, ans):
     o = ops[0]
     if o in (5, 6, 7, 8, 9):
         return (b, p, 0, ops[1:], ())
+    if o == 10:
+        return (b + 1, p, 0, (16,), ())     # shutdown(true): the increment; the error report follows and nothing of the flow after it
+    if o == 16:
+        return (b, p, 0, (), ())            # the report returns
     if o in (1, 4):
         return (b + 1, p, 0, ops[1:], ())
     return (b - 1, p, (2 if o == 3 else 1) if b == 1 else 0, ops[1:], ())
@@ -331,7 +345,9 @@ def flows(maxlen, alphabet=(1, 2, 3)):
         nf = []
         for f, d in frontier:
             for o in alphabet:
-                if o in (1, 4):
+                if o == 10:
+                    res.append(f + [o])          # the run ends here: never extended
+                elif o in (1, 4):
                     nf.append((f + [o], d + 1))
                 elif o in (5, 6, 7, 8, 9):
                     nf.append((f + [o], d))
@@ -351,7 +367,7 @@ def parse(obs):
     n = len(obs)
     while i < n:
         k = obs[i]
-        if 0 <= k <= 15 and i + 2 <= n - 1:
+        if 0 <= k <= 16 and i + 2 <= n - 1:
             ev.append(('R', k, obs[i + 1], obs[i + 2]))
             i += 3
         elif k in (20, 21, 30) and i + 1 <= n - 1:
@@ -371,10 +387,12 @@ def account(c, obs):
 
 
 def account_ops(ops, obs):
-    ops = [o for o in ops if o in (1, 2, 3, 4)]
+    ops = [o for o in ops if o in (1, 2, 3, 4, 10)]
+    if 10 in ops:
+        ops = ops[:ops.index(10) + 1]       # run() throws there: the rest of the flow is never executed
     ev = parse(obs)
     sigs = []
-    stats = {'arrivals': 0, 'delivered': 0, 'deferred': 0, 'remembered': 0, 'discarded': 0, 'dropped': 0, 'overwritten': 0, 'stops': 0}
+    stats = {'arrivals': 0, 'delivered': 0, 'deferred': 0, 'remembered': 0, 'discarded': 0, 'dropped': 0, 'overwritten': 0, 'stops': 0, 'in_report': 0}
 
     def bad(s):
         if s not in sigs:
@@ -391,6 +409,8 @@ def account_ops(ops, obs):
     cb_active = 0
     opi = 0
     deliver = False
+    shut = False        # shutdown(bool) has started and the run ends with it: delivery is blocked for good from its first statement on
+    in_report = False   # the error report of shutdown(true) (onUnhandledException) is running
 
     def setfate(i, f):
         fate.setdefault(i, []).append(f)
@@ -408,10 +428,14 @@ def account_ops(ops, obs):
         if exp_k is not None and k != exp_k:
             bad('unexpected-step:%d-instead-of-%d' % (k, exp_k))
             return sigs, stats
+        if k == 16 and not stack:
+            in_report = True
         if nxt is not None and nxt[0] == 'AR':
             stack.append({'sig': nxt[1], 'id': len(arrs), 'deferred': False, 'r': None, 'pc': 1})
             arrs.append(nxt[1])
             stats['arrivals'] += 1
+            if in_report:
+                stats['in_report'] += 1
             i += 2
             continue
         if k == 0:
@@ -451,6 +475,10 @@ def account_ops(ops, obs):
                 return sigs, stats
             if cbev[1] != top['sig']:
                 bad('callback-with-wrong-signal-number')
+            if in_report:
+                bad('callback-during-shutdown-error-report')      # shutdown(true) blocks delivery BEFORE it reports the error
+            elif shut:
+                bad('callback-during-shutdown')
             if depth != 0:
                 bad('callback-while-application-holds-a-block')
             if cb_active != 0:
@@ -509,7 +537,13 @@ def account_ops(ops, obs):
         elif k == 7:
             exp_b = b + 1
             depth += 1
+            if opi < len(ops) and (ops[opi] == 10 or (ops[opi] == 4 and opi == len(ops) - 1)):
+                shut = True                 # the run ends with this shutdown: nothing releases its block
+                if ops[opi] == 10 and k2 == 16 and b2 == b:
+                    bad('shutdown-error-report-runs-with-delivery-not-blocked')    # onUnhandledException entered before fetch_and_inc(blocked_)
             opi += 1
+        elif k == 16:
+            in_report = False               # the report returns
         elif k == 8:
             exp_b = b - 1
             depth -= 1
@@ -595,7 +629,7 @@ def parse_os(obs):
     i, n = 0, len(obs)
     while i < n:
         k = obs[i]
-        if 0 <= k <= 15 and i + 8 < n and obs[i + 3] == 40:
+        if 0 <= k <= 16 and i + 8 < n and obs[i + 3] == 40:
             ev.append(('R', k, obs[i + 1], obs[i + 2], tuple(obs[i + 4:i + 8]), obs[i + 8]))
             i += 9
         elif k in (20, 21, 30) and i + 1 < n:
@@ -706,7 +740,7 @@ def os_pass(ev, pre, ever, bad, stats, al):
             if i != n - 1:
                 return None
             break
-        if k in (11, 12, 13, 14, 15):   # an operation on another application object / setAlarm: a main-flow step
+        if k in (11, 12, 13, 14, 15, 16):   # an operation on another application object / setAlarm / the error report returns: a main-flow step
             if stk:
                 return None
             if k == 14:
@@ -740,7 +774,7 @@ def os_pass(ev, pre, ever, bad, stats, al):
 
 
 def account_os(c, obs):
-    stats = {'arrivals': 0, 'delivered': 0, 'deferred': 0, 'remembered': 0, 'discarded': 0, 'dropped': 0, 'overwritten': 0, 'stops': 0,
+    stats = {'arrivals': 0, 'delivered': 0, 'deferred': 0, 'remembered': 0, 'discarded': 0, 'dropped': 0, 'overwritten': 0, 'stops': 0, 'in_report': 0,
              'os_discarded': 0, 'os_handled': 0, 'os_ignored_after_stop': 0}
     sigs = []
 
@@ -830,6 +864,15 @@ FIXED_OS = [
     (3, 8, [8], [], [4, 0, 4], [4, 0, 0, 0, 0, 0, 4], 'alarm-two-runs-handler-persists'),
     (3, 24, [1, 3], [2], [0, 4], [4, 0, 0, 4], 'alarm-two-runs-time-limit'),
     (1, 0, [], [], [4], None, 'alarm-without-setAlarm-not-raised'),
+    # run() throws: main() -> shutdown(true) -> onUnhandledException() override that returns (code 16 = the error report is running)
+    (1, 0, [10], [], [0, 1, 0, 0, 0, 0, 2], None, 'shutdown-error-report-arrivals-remembered-and-discarded'),
+    (1, 0, [10], [], [], None, 'shutdown-error-report-no-arrival'),
+    (1, 0, [1, 10], [], [1, 0, 0, 1], None, 'shutdown-error-after-delivered-signal'),
+    (1, 0, [1, 3, 10], [], [0, 1, 0, 0, 0, 0, 0, 0, 0, 0, 0, 0, 0, 0, 0, 1, 0, 0, 0, 0, 0, 1], None, 'shutdown-error-report-after-release'),
+    (2, 0, [10], [], [0, 2, 0, 0, 0, 0, 0, 0, 1], None, 'shutdown-error-report-second-main'),
+    (3, 0, [10], [], [0, 1], [1, 0, 0, 0, 0, 0, 2], 'shutdown-error-report-two-runs'),
+    (1, 16, [10], [], [0, 4, 0, 0, 0, 0, 1], None, 'shutdown-error-report-alarm-of-the-time-limit'),
+    (1, 0, [8, 10], [2], [4, 0, 0, 0, 0, 0, 0, 0, 4], None, 'shutdown-error-report-alarm-rearmed'),
 ]
 
 
@@ -857,7 +900,7 @@ def os_targeted(rnd, count):
     """arrival of a while the application holds a block / while a callback runs (any scheduling point of the flow), then the run
     goes on to the idle point, then the SAME number arrives, then another one; in every OS-level mode; some callbacks answer stop"""
     out = []
-    flows_ = [[1, 3], [1, 2], [1, 1, 3, 3], [], [1, 3, 1, 3], [1, 1, 2, 3], [4], [1, 3, 4]]
+    flows_ = [[1, 3], [1, 2], [1, 1, 3, 3], [], [1, 3, 1, 3], [1, 1, 2, 3], [4], [1, 3, 4], [10], [1, 3, 10], [1, 10], [10]]
     for n_ in range(count):
         f = rnd.choice(flows_)
         if n_ % 2 == 1:
@@ -905,6 +948,9 @@ def random_os_case(rnd, nops, narr, nsig):
         ops = with_objects(rnd, ops)
         for _ in range(len(ops) - n0):          # one more scheduling point per object operation
             ds.insert(rnd.randrange(len(ds) + 1), 0)
+    if rnd.random() < 0.2:                      # the run ends with an exception: shutdown(true) and its error report
+        ops = ops + [10]
+        ds += [0] * 2 + [rnd.randint(1, 3) if rnd.random() < 0.7 else 0 for _ in range(rnd.randint(1, 8))]
     m = rnd.choice([1, 1, 2, 3])
     mask = 0 if rnd.random() < 0.8 else rnd.randint(1, 7)
     if rnd.random() < 0.4:                      # the alarm
@@ -951,18 +997,22 @@ def gen(seed, tier):
         spec_os = [(3, 3, (1, 2), 1, 0), (4, 2, (1, 2), 1, 0), (2, 2, (1, 2), 2, 0), (2, 2, (1, 2), 1, 1)]
         spec_obj = [(3, 2, 1), (2, 2, 2)]
         spec_alarm = [(3, 2, 1, 0, (1, 2)), (3, 2, 1, 8, (1, 2)), (2, 2, 1, 24, (1, 2)), (2, 2, 2, 8, (1, 2)), (1, 2, 2, 24, (1, 2, 3, 0))]
+        # shutdown(true): (max ops over {block, unblock(true)} in front of the throwing op, max arrivals, numbers, mode, mask)
+        spec_err = [(2, 3, (1, 2), 1, 0), (3, 2, (1, 2), 1, 0), (1, 2, (1, 2), 2, 0), (1, 2, (4, 1), 1, 16), (1, 2, (4, 1), 1, 24)]
         nrand, nrand_os, ntarget = 3000, 3000, 2400
     elif tier == 'thorough':
         spec = [(5, 3, (1, 2)), (3, 4, (1, 2)), (3, 3, (1, 2, 3)), (6, 1, (1,))]
         spec_os = [(4, 3, (1, 2), 1, 0), (3, 4, (1, 2), 1, 0), (3, 3, (1, 2, 3), 1, 0), (3, 3, (1, 2), 2, 0), (3, 2, (1, 2, 3), 1, 5)]
         spec_obj = [(4, 2, 1), (3, 3, 1), (3, 2, 2)]
         spec_alarm = [(3, 3, 1, 0, (1, 2)), (3, 3, 1, 8, (1, 2)), (4, 2, 1, 8, (1, 2)), (3, 2, 1, 24, (0, 1, 2, 3)), (3, 2, 2, 8, (1, 2)), (2, 3, 2, 24, (0, 1, 2, 3))]
+        spec_err = [(3, 3, (1, 2), 1, 0), (2, 4, (1, 2), 1, 0), (2, 3, (1, 2, 3), 1, 0), (2, 3, (1, 2), 2, 0), (2, 3, (4, 1), 1, 16), (2, 3, (4, 1), 1, 24), (2, 2, (1, 2), 1, 1)]
         nrand, nrand_os, ntarget = 200000, 80000, 30000
     else:
         spec = [(2, 2, (1, 2))]
         spec_os = [(2, 2, (1, 2), 1, 0)]
         spec_obj = [(2, 2, 1)]
         spec_alarm = [(2, 2, 1, 8, (1, 2))]
+        spec_err = [(1, 2, (1, 2), 1, 0)]
         nrand, nrand_os, ntarget = 3000, 3000, 2400
     seen = set()
     for (maxops, maxarr, sg, m, mask) in spec_os:
@@ -996,6 +1046,18 @@ def gen(seed, tier):
                 if t not in seen:
                     seen.add(t)
                     out.append((c, {'kind': 'os-exhaustive-alarm-ops%d-arr%d-mode%d-mask%d' % (maxops, maxarr, m, mask)}))
+    # the run ends with an exception: every well-nested flow over {block, unblock(true)} followed by the throwing op (main() -> shutdown(true) ->
+    # error report that returns), every schedule - arrivals before the increment, INSIDE the error report, after it
+    for (maxops, maxarr, sg, m, mask) in spec_err:
+        pre_, tl_ = pre_of(mask), tl_of(mask)
+        for f0 in flows(maxops, alphabet=(1, 3)):
+            f = f0 + [10]
+            for ans, ds in enumerate_schedules(f, maxarr, sg, os_pre=pre_, d4=d4_boot(pre_, tl_)):
+                c = enc_os(m, mask, f, ans, ds)
+                t = tuple(c)
+                if t not in seen:
+                    seen.add(t)
+                    out.append((c, {'kind': 'os-exhaustive-shutdown-error-ops%d-arr%d-mode%d-mask%d' % (maxops + 1, maxarr, m, mask)}))
     # two runs of main() on one object: every schedule of the first run (<= 2 ops, <= 2 arrivals), then every single arrival in the second
     for f in flows(2):
         for ans, ds in enumerate_schedules(f, 2, (1, 2), os_pre=set()):
@@ -1139,7 +1201,10 @@ LEVEL_TEXT = ('Machine-checked invariant proofs (Coq) over a small-step transiti
               'from main() for a time limit, from inside a callback - installs the handler unconditionally, so once it has been executed and no '
               'SIGALRM activation is in progress the handler is installed even if the environment had SIGALRM ignored and an expiring alarm reaches '
               'processSignal; a callback that re-arms the alarm leaves the handler installed although its own ScopedSig had set SIG_IGN, so an '
-              'alarm expiring during that callback is not discarded (it re-enters sigHandler and is remembered). The model is tied to the code by differential correspondence of the full step trace (extracted '
+              'alarm expiring during that callback is not discarded (it re-enters sigHandler and is remembered); the shutdown path: once the main flow has executed the '
+              'increment of its last block operation - shutdown(false) at the end of run(), or shutdown(true) from the catch(...) of main() - then for every schedule, including '
+              'arrivals inside the error report of shutdown(true) (onUnhandledException override that returns), the flow holds a block, blocked_ >= 1, no activation enters the callback, '
+              'the list of deliveries does not grow, every arrival is remembered (first) or discarded (c18_shutdown_blocks_for_good, c18_no_callback_from_shutdown_to_end_of_run). The model is tied to the code by differential correspondence of the full step trace (extracted '
               'model vs. sanitizer build of the real class driven through the yield hook; OS-level cases through real raise() inside a real '
               'Application::main() with the dispositions read back by sigaction at every scheduling point), exhaustively for all schedules '
               'with <= 3 operations and <= 3 arrivals in both families, and an independent trace oracle.')
@@ -1163,6 +1228,8 @@ EXHAUSTIVE_SPACE = ('quick: every schedule (arrival decisions at every yield poi
                     '3 numbers, <= 3/3 in a second main(), <= 3/2 with numbers 1 and 3 environment-ignored. OS-LEVEL flows with object operations (construct / destroy another Application, '
                     'copy-and-drop the running one): quick <= 3 ops over {block, unblock(true), new, delete, copy} / <= 2 arrivals (first main()), <= 2/2 (second main()); thorough <= 4/2, <= 3/3, <= 3/2 (second main()). '
                     'OS-LEVEL alarm flows (ops over {block, unblock(true), setAlarm}, arrivals of {SIGALRM, 1}, every callback continues or re-arms): quick <= 3 ops / <= 2 arrivals with SIGALRM '
-                    'environment-ignored and not, <= 2/2 with --time-limit, <= 2/2 inside a second main(); thorough <= 3/3, <= 4/2, all four answer codes with --time-limit. NOT enumerated: interruptions of sigHandler between its entry and '
+                    'environment-ignored and not, <= 2/2 with --time-limit, <= 2/2 inside a second main(); thorough <= 3/3, <= 4/2, all four answer codes with --time-limit. '
+                    'OS-LEVEL flows that end with an exception (ops over {block, unblock(true)} then "run() throws" = shutdown(true) with an error report that returns; arrivals before the increment, inside the report, after it): '
+                    'quick <= 3 ops (incl. the throw) / <= 3 arrivals, <= 4/2, <= 2/2 inside a second main(), <= 2/2 of {SIGALRM, 1} with --time-limit (SIGALRM environment-ignored or not); thorough <= 4/3, <= 3/4, <= 3/3 of 3 numbers, <= 3/3 second main(), <= 3/3 alarm, <= 3/2 with number 1 environment-ignored. NOT enumerated: interruptions of sigHandler between its entry and '
                     'signal(sig,SIG_IGN) / between the return of processSignal and signal(sig,sigHandler) (no yield point there). '
                     'The unbounded claim is carried by the theorems, not by this enumeration.')
